@@ -1631,10 +1631,7 @@ impl Fsm {
                 self.tracer.enter_method("externalQueue.dequeue");
                 loop {
                     let externalEventTmp = externalQueue_receiver.lock().unwrap().recv().unwrap();
-                    if externalEventTmp.name.starts_with(EVENT_DONE_INVOKE_PREFIX) {
-                        externalEvent = externalEventTmp;
-                        break;
-                    }
+                    // (also "done.invoke" of a cancelled session is ignored)
                     if let Some(invoke_id) = &externalEventTmp.invoke_id {
                         if caller_invoke_id.ne(invoke_id) {
                             // W3C says:
@@ -1679,7 +1676,17 @@ impl Fsm {
 
                 if externalEvent.name.starts_with(EVENT_DONE_INVOKE_PREFIX) {
                     if let Some(invoke_id) = &externalEvent.invoke_id {
-                        get_global!(datamodel).child_sessions.remove(invoke_id);
+                        // The invoke id may be in use again: remove only the session that is done.
+                        let origin_session = Self::origin_session_id(&externalEvent);
+                        let mut global = get_global!(datamodel);
+                        let is_that_session = match (global.child_sessions.get(invoke_id), origin_session) {
+                            (Some(session), Some(origin_session)) => session.session_id == origin_session,
+                            (Some(_), None) => true,
+                            (None, _) => false,
+                        };
+                        if is_that_session {
+                            global.child_sessions.remove(invoke_id);
+                        }
                     }
                 }
             }
